@@ -28,7 +28,7 @@ DEFAULTS = dict(flavor='OMPI', rf=False, hf=False, can_os=False, oversub=False, 
                 exact=False, tpc=1, reqgpus=False, cpn=64, gpn=0, local=7, tpn=0, nodes=[], dvm=True,
                 cheyenne=False)
 TDEF = dict(slots=[], rs=[], ranks=1, cpr=1, gpr=0, mpi=True, exe=True, mem=0, skipgpu=False, omp=False,
-            cuda=False, wfail=False)
+            cuda=False, wfail=False, b=0)
 
 
 def opts(case):
@@ -135,6 +135,12 @@ def can_lit(c):
     if isinstance(c, dict):
         return '(inl %s)' % c['err']
     return '(inr %s)' % L.boolean(c)
+
+
+def sel_lit(x):
+    if isinstance(x, dict):
+        return '(inl %s)' % x['err']
+    return '(inr %s)' % L.opt(None if x is None else L.nat(x))
 
 
 def errkind(e):
@@ -350,7 +356,7 @@ class C09(Prop):
     translators = []
     header = 'From RP Require Import Launch.Model Launch.Oracle.'
     clauses = ['count', 'nodes', 'pins', 'stateless', 'refuses', 'no_crash', 'bulk_launcher_is_own',
-               'bulk_cmd_matches_placement']
+               'bulk_cmd_matches_placement', 'launcher_independent_of_earlier_tasks']
     corr_name = ('Launch.Model(can_launch/get_launch_cmds per method) vs LaunchMethod.create + init_from_scratch/'
                  'init_from_info + ResourceManager.find_launcher + AgentExecutingComponent._get_launch')
     rule = ('corpus, then bulks of 1-5 tasks through the real Popen.work (refused / local / remote single-rank / '
@@ -606,24 +612,39 @@ class C09(Prop):
                 o['rf'] = rng.random() < 0.4
                 o['hf'] = rng.random() < 0.4
             tasks = []
-            for _ in range(rng.randint(1, 5)):
-                r2 = rng.random()
-                if r2 < 0.25:        # refused by every method: no executable (or MPI where only FORK/SSH exist)
-                    node = rng.choice([local, rng.randint(1, 60)])
-                    tasks.append(dict(slots=[[node, node, [0], []]], ranks=1, cpr=1, mpi=rng.random() < 0.3,
-                                      exe=False))
-                elif r2 < 0.5:       # single rank on the agent's node
-                    node = rng.choice([local, local, 0])
-                    tasks.append(dict(slots=[[node, node, [rng.randint(0, 63)], []]], ranks=1, cpr=1, mpi=False))
-                elif r2 < 0.75:      # single rank on another node
-                    node = rng.choice([partner(local), rng.randint(1, 60)])
-                    tasks.append(dict(slots=[[node, node, [rng.randint(0, 63)], []]], ranks=1, cpr=1,
-                                      mpi=rng.random() < 0.1))
-                else:                # multi-rank
-                    nr = rng.randint(2, 6) if rng.random() < 0.9 else rng.randint(43, 50)
-                    pool_ = [local, partner(local), rng.randint(1, 60), rng.randint(1, 60)]
-                    slots = [[n_, n_, [i], []] for i, n_ in enumerate(rng.choice(pool_) for _ in range(nr))]
-                    tasks.append(dict(slots=slots, ranks=nr, cpr=1, mpi=rng.random() < 0.8))
+            nb = rng.choice([1, 1, 2, 3, 4])
+            layouts = [(1, 1), (1, 1), (2, 1), (1, 2), (4, 1), (3, 2)]
+            lay = rng.sample(layouts, 2)          # few layouts, so that they repeat within the sequence
+            other = rng.randint(1, 60)
+            for b_ in range(nb):
+                for _ in range(rng.randint(1, 5 if nb == 1 else 3)):
+                    r2 = rng.random()
+                    nr, cpr = rng.choice(lay)
+                    if r2 < 0.2:         # refused by every method: no executable
+                        node = rng.choice([local, other])
+                        tasks.append(dict(slots=[[node, node, list(range(cpr)), []] for _i in range(nr)], ranks=nr,
+                                          cpr=cpr, mpi=rng.random() < 0.3, exe=False, b=b_))
+                        continue
+                    if r2 < 0.45:        # every rank on the agent's node
+                        nodes_ = [rng.choice([local, local, 0])] * nr
+                    elif r2 < 0.7:       # every rank on one other node
+                        nodes_ = [rng.choice([partner(local), other])] * nr
+                    else:                # spread over several nodes (for one rank: another node)
+                        pool_ = [local, partner(local), other, rng.randint(1, 60)]
+                        nodes_ = [pool_[(i + 1) % len(pool_)] for i in range(nr)] if rng.random() < 0.5 else \
+                                 [rng.choice(pool_) for _i in range(nr)]
+                    used = {}
+                    slots = []
+                    for n_ in nodes_:
+                        u = used.get(n_, 0)
+                        slots.append([n_, n_, list(range(u, u + cpr)), []])
+                        used[n_] = u + cpr
+                    tasks.append(dict(slots=slots, ranks=nr, cpr=cpr, b=b_,
+                                      mpi=(rng.random() < 0.1) if nr == 1 else (rng.random() < 0.8)))
+            if rng.random() < 0.1:
+                nr = rng.randint(43, 50)
+                tasks.append(dict(slots=[[1 + i % 7, 1 + i % 7, [i // 7], []] for i in range(nr)], ranks=nr, cpr=1,
+                                  mpi=True, b=nb))
             yield {'bulk': True, 'order': order, 'o': o, 'fam': fam, 'tasks': tasks}
         if tier == 'thorough':
             # small-scope exhaustive: all assignments of <= 4 ranks to 2 nodes for the node-naming methods
@@ -648,35 +669,63 @@ class C09(Prop):
         from radical.pilot.resource_config import Slot, RO
         self.Slot, self.RO = Slot, RO
         self.ncase = 0
+        self.orig_create = LaunchMethod.__dict__['create'].__func__
+        from radical.pilot.agent.scheduler.base import AgentSchedulingComponent
+        self.ASC = AgentSchedulingComponent
 
     def _make(self, case):
         """A launcher object, built the way the agent builds it (factory, real
         sub-class __init__, real init_from_scratch under tool mocks, real
         init_from_info); only the registry access of the base __init__ is
         replaced."""
-        insts = {}
+        ru = self.ru
+        o = opts(case)
         order = case.get('order') or [case['name']]
-        for nm in order:
-            insts[nm] = self._make_one(nm, opts(case))
+        # the resource manager builds its launch methods itself (real _prepare_launch_methods over
+        # rm_info.launch_methods); LaunchMethod.create is wrapped to run under the tool mocks
+        up = [nm.upper() for nm in order]
+        lms = {'order': list(up)}
+        for nm in up:
+            lms[nm] = {'options': {'tasks_per_node': o['tpn']}} if o['tpn'] else {}
+        details = {'exact': o['exact'], 'oversubscribe': o['oversub']}
+        rm_info = self.RMInfo({'details': details, 'cores_per_node': o['cpn'], 'gpus_per_node': o['gpn'],
+                               'threads_per_core': o['tpc'], 'requested_gpus': 1 if o['reqgpus'] else 0,
+                               'node_list': [{'name': hname(i), 'index': i} for i in o['nodes']],
+                               'launch_methods': lms})
         with mock.patch.object(self.RM, '__init__', return_value=None):
             rm = self.RM(None, None, None, None)
-        rm._log = mock.MagicMock()
-        rm._launchers = insts
-        rm._launch_order = list(order)
-        return insts[order[0]], rm
+        rm._log, rm._prof = mock.MagicMock(), None
+        rm._rm_info = rm_info
+        rm._cfg = ru.Config(from_dict={'pid': 'pilot.0000', 'reg_addr': 'tcp://127.0.0.1:3',
+                                       'resource': 'princeton.traverse' if o['traverse'] else 'local.localhost'})
 
-    def _make_one(self, name, o):
+        def create(name_, lm_cfg_, rm_info_, log_, prof_):
+            return self._make_one(name_, o, lm_cfg_, rm_info_)
+        with mock.patch.object(self.LM, 'create', create):
+            rm._prepare_launch_methods()
+        if list(rm._launch_order) != up:
+            raise RuntimeError('launch methods %s were not all created: %s' % (up, rm._launch_order))
+        if order != up:
+            # unit-test style lower-case instance name: not creatable through the factory
+            assert len(order) == 1
+            rm._launchers = {order[0]: self._make_one(order[0], o)}
+            rm._launch_order = list(order)
+        return rm._launchers[order[0]], rm
+
+    def _make_one(self, name, o, lm_cfg=None, rm_info=None):
         ru, LM = self.ru, self.LM
         lm = NAMES[name]
         chey = o['cheyenne'] and lm in ('MPIRUN', 'MPIEXEC')
         host = 'cheyenne1' if chey else hname(o['local'])
         details = {'exact': o['exact'], 'oversubscribe': o['oversub']}
-        rm_info = self.RMInfo({'details': details, 'cores_per_node': o['cpn'], 'gpus_per_node': o['gpn'],
-                               'threads_per_core': o['tpc'], 'requested_gpus': 1 if o['reqgpus'] else 0,
-                               'node_list': [{'name': hname(i), 'index': i} for i in o['nodes']]})
-        lm_cfg = {'resource': 'princeton.traverse' if o['traverse'] else 'local.localhost', 'pid': 'pilot.0000'}
-        if o['tpn']:
-            lm_cfg['options'] = {'tasks_per_node': o['tpn']}
+        if rm_info is None:
+            rm_info = self.RMInfo({'details': details, 'cores_per_node': o['cpn'], 'gpus_per_node': o['gpn'],
+                                   'threads_per_core': o['tpc'], 'requested_gpus': 1 if o['reqgpus'] else 0,
+                                   'node_list': [{'name': hname(i), 'index': i} for i in o['nodes']]})
+        if lm_cfg is None:
+            lm_cfg = {'resource': 'princeton.traverse' if o['traverse'] else 'local.localhost', 'pid': 'pilot.0000'}
+            if o['tpn']:
+                lm_cfg['options'] = {'tasks_per_node': o['tpn']}
         log = mock.MagicMock()
 
         def which(names, *a, **k):
@@ -717,7 +766,7 @@ class C09(Prop):
             if name in ('FORK', 'SSH', 'RSH', 'MPIRUN', 'MPIRUN_MPT', 'MPIRUN_RSH', 'MPIRUN_CCMRUN',
                         'MPIRUN_DPLACE', 'MPIEXEC', 'MPIEXEC_MPT', 'SRUN', 'APRUN', 'CCMRUN', 'IBRUN',
                         'JSRUN', 'JSRUN_ERF', 'PRTE'):
-                inst = LM.create(name, lm_cfg, rm_info, log, None)
+                inst = self.orig_create(LM, name, lm_cfg, rm_info, log, None)
             else:                                            # unit-test style lower-case name
                 inst = MPIRun(name, lm_cfg, rm_info, log, None)
         return inst
@@ -744,8 +793,13 @@ class C09(Prop):
             if not os.path.exists(blocker):
                 open(blocker, 'w').close()
             sbox = os.path.join(blocker, 'sandbox')
-        return {'uid': uid, 'slots': slots, 'partition': 0, 'description': td, 'task_sandbox_path': sbox,
+        task = {'uid': uid, 'slots': slots, 'partition': 0, 'description': td, 'task_sandbox_path': sbox,
                 'stdout_file_short': 'out', 'stderr_file_short': 'err'}
+        # what the agent scheduler writes into the task dict before the executor sees it
+        self.ASC._set_tuple_size(None, task)                            # task['tuple_size']
+        task['$set'] = ['resources']
+        task['resources'] = {'cpu': td['ranks'] * td['cores_per_rank'], 'gpu': td['ranks'] * td['gpus_per_rank']}
+        return task
 
     def _launch(self, case, inst, rm, task, sbox):
         lm = NAMES[case['name']]
@@ -892,15 +946,20 @@ class C09(Prop):
                           'pre_exec_sync': False, 'raptor_id': None, 'sandbox': None, 'tags': {},
                           'lfs_per_rank': 0, 'mode': 'task.executable', 'services': []})
                 tasks.append(task)
+            import itertools
+            groups = [[tk for tk, _ in g] for _, g in
+                      itertools.groupby(zip(tasks, case['tasks']), key=lambda x: tsk(x[1])['b'])]
             with sp_patch:
-                c.work(list(tasks))
+                for g in groups:                     # the bulks, one after the other, on ONE executor / RM
+                    c.work(list(g))
             out = []
-            for task in tasks:
+            for task, t in zip(tasks, case['tasks']):
                 uid = task['uid']
+                fsel = self._fresh_sel(case, t, root)
                 if uid in rec['failed']:
                     if any(uid in x for x in rec['spawned']):
                         raise ValueError('%s was spawned and failed' % uid)
-                    out.append({'failed': True})
+                    out.append({'failed': True, 'fsel': fsel})
                     continue
                 lname = task.get('launcher_name')
                 if lname not in order or not any(uid in x for x in rec['spawned']):
@@ -914,10 +973,21 @@ class C09(Prop):
                     raise ValueError('%d launch commands' % len(cmds))
                 cmd = cmds[0].replace('$RP_TASK_SANDBOX/%s.exec.sh' % uid, 'EXEC')
                 argv, f = parse_cmd(NAMES[lname], cmd, task['task_sandbox_path'], uid)
-                out.append({'failed': False, 'sel': order.index(lname), 'out': {'argv': argv, 'file': f}})
+                out.append({'failed': False, 'sel': order.index(lname), 'out': {'argv': argv, 'file': f},
+                            'fsel': fsel})
             return {'calls': out}
         finally:
             shutil.rmtree(root, ignore_errors=True)
+
+    def _fresh_sel(self, case, t, sbox):
+        """what a fresh resource manager selects for this task alone"""
+        _, frm = self._make(case)
+        ftask = self._taskdict(dict(case, name=case['order'][0]), dict(t, wfail=False), 'task.fresh', sbox)
+        try:
+            launcher, lname = frm.find_launcher(ftask)
+        except Exception as e:
+            return {'err': errkind(e)}
+        return None if launcher is None else case['order'].index(lname)
 
     def run_impl(self, case):
         self.ncase += 1
@@ -930,11 +1000,12 @@ class C09(Prop):
             os.makedirs(sbox)
             try:
                 out = []
+                _, rm = self._make(case)            # ONE resource manager for the whole sequence
                 for k, t in enumerate(case['tasks']):
-                    _, rm = self._make(case)
-                    # slots in the format of the launcher that will see them: new-style only
                     task = self._taskdict(dict(case, name=case['order'][0]), t, 'task.%06d' % k, sbox)
-                    out.append(self._select(case, rm, task, sbox))
+                    r = self._select(case, rm, task, sbox)
+                    r['fsel'] = self._fresh_sel(case, t, sbox)
+                    out.append(r)
                 return {'calls': out}
             finally:
                 shutil.rmtree(sbox, ignore_errors=True)
@@ -952,8 +1023,8 @@ class C09(Prop):
                 for fn in os.listdir(sbox):
                     if fn.startswith('task.'):
                         os.unlink(os.path.join(sbox, fn))
-                _, fresh = self._launch(case, finst, frm, ftask, sbox)
-                out.append({'can': can, 'seq': seq, 'fresh': fresh})
+                fcan, fresh = self._launch(case, finst, frm, ftask, sbox)
+                out.append({'can': can, 'seq': seq, 'fcan': fcan, 'fresh': fresh})
             return {'calls': out}
         finally:
             shutil.rmtree(sbox, ignore_errors=True)
@@ -969,15 +1040,17 @@ class C09(Prop):
                                                                  L.lst([arg_lit(a) for a in c['out']['argv']]),
                                                                  file_lit(c['out']['file']))
                        for c in obs['calls']])
-            return '(c09_bulk_row %s %s %s)' % (self._cfgs(case), L.lst([task_lit(t) for t in case['tasks']]), o)
+            return '(c09_bulk_row %s %s %s %s)' % (self._cfgs(case), L.lst([task_lit(t) for t in case['tasks']]), o,
+                                                   L.lst([sel_lit(c['fsel']) for c in obs['calls']]))
         if case.get('order'):
             o = L.lst(['(%s, %s)' % (
                 '(inl %s)' % c['sel']['err'] if isinstance(c['sel'], dict) else
                 '(inr %s)' % L.opt(None if c['sel'] is None else L.nat(c['sel'])),
                 L.opt(None if c['out'] is None else outcome_lit(c['out']))) for c in obs['calls']])
-            return '(c09_select_row %s %s %s)' % (self._cfgs(case), L.lst([task_lit(t) for t in case['tasks']]), o)
-        o = L.lst(['((%s, %s), %s)' % (can_lit(c['can']), outcome_lit(c['seq']), outcome_lit(c['fresh']))
-                   for c in obs['calls']])
+            return '(c09_select_row %s %s %s %s)' % (self._cfgs(case), L.lst([task_lit(t) for t in case['tasks']]), o,
+                                                     L.lst([sel_lit(c['fsel']) for c in obs['calls']]))
+        o = L.lst(['((%s, %s), (%s, %s))' % (can_lit(c['can']), outcome_lit(c['seq']), can_lit(c['fcan']),
+                                             outcome_lit(c['fresh'])) for c in obs['calls']])
         return '(c09_row %s %s %s)' % (cfg_lit(case), L.lst([task_lit(t) for t in case['tasks']]), o)
 
     def model_show(self, case):
@@ -1028,6 +1101,8 @@ class C09(Prop):
         return lm
 
     def signature(self, case, obs, clause):
+        if clause == 'launcher_independent_of_earlier_tasks':
+            return '%s:%s' % (clause, 'Popen.work' if case.get('bulk') else 'find_launcher')
         if case.get('bulk'):
             return '%s:Popen.work' % clause
         if case.get('order'):
